@@ -7,8 +7,11 @@ CONSTANTS
   OAs = {TRUE, FALSE}
   K256s = {TRUE, FALSE}
   Dirs = {"w2r", "r2w"}
+  Others = {"same", "none", "diff"}
   Astray = TRUE
+  LooseKid = FALSE
   GenK = 8
+  GenC = 2
 VIEW View
 INVARIANT Inv_TamperedNeverDecodes
 INVARIANT Inv_NoKeyNoData
@@ -16,5 +19,6 @@ INVARIANT Inv_ForeignKeyNoData
 INVARIANT Inv_NoMacForMeNoData
 INVARIANT Inv_AuthorisedDecodes
 INVARIANT Inv_S10IsADeviation
+INVARIANT Inv_KeyIdOfAnotherKeyNoData
 ACTION_CONSTRAINT GenEdge
 CHECK_DEADLOCK FALSE
